@@ -353,12 +353,16 @@ def run_scale_job(job, prop, seed, tag):
             pairs, lb = data["pairs"], data["loopbacks"]
             if data["traces"] != 1:
                 problems.append("%d traces for one drop" % data["traces"])
-            if data["expansions"] > n:
-                problems.append("%d objects expanded for a group of %d (an object is visited more than once)" % (data["expansions"], n))
-            if data["pops"] > pairs + 1:
-                problems.append("%d worklist pops for %d distinct adoption pairs" % (data["pops"], pairs))
-            if data["entries"] > 2 * pairs + lb:
-                problems.append("%d table entries scanned, bound %d" % (data["entries"], 2 * pairs + lb))
+            # generous linear bounds ("a bounded number of visits per object"): the current algorithm
+            # needs N expansions, pairs+1 pops and 2*pairs+same-handle entries; an alternative linear
+            # algorithm may need a small multiple of that
+            edges_all = pairs + lb
+            if data["expansions"] > 2 * n:
+                problems.append("%d objects expanded for a group of %d (objects are visited more than twice)" % (data["expansions"], n))
+            if data["pops"] > 2 * (n + edges_all) + 1:
+                problems.append("%d worklist pops for %d objects and %d adoption records" % (data["pops"], n, edges_all))
+            if data["entries"] > 4 * edges_all + 2 * n:
+                problems.append("%d table entries scanned for %d objects and %d adoption records" % (data["entries"], n, edges_all))
             if data["group_members"] != n or data["drops"] != n:
                 problems.append("group of %d: %d members torn down, %d destructors ran" % (n, data["group_members"], data["drops"]))
             if data["max_depth"] > 1:
